@@ -231,4 +231,107 @@ Proof.
   unfold endpoints, mkI. cbn [nleb RN T]. destruct (Rleb _ _); intros E; inversion E; subst. cbn [fst snd].
   intros c Hc. split; [apply minl_le | apply maxl_ge]; apply in_map; exact Hc.
 Qed.
+(* ---------- subinterval reconstitution with vertices: between the vertex result and the true range ---------- *)
+Lemma last_tile (r : list R) : forall a b, exists u, In (u, last (a :: b :: r) 0) (combine (removelast (a :: b :: r)) (tl (a :: b :: r))).
+Proof.
+  induction r as [|c r IH]; intros a b.
+  - exists a. cbn. left. reflexivity.
+  - destruct (IH b c) as (u & Hu). exists u.
+    change (last (a :: b :: c :: r) 0) with (last (b :: c :: r) 0).
+    change (removelast (a :: b :: c :: r)) with (a :: removelast (b :: c :: r)). cbn [tl combine]. right. exact Hu.
+Qed.
+Lemma combine_consec_nonempty (l : list R) : (2 <= length l)%nat -> combine (removelast l) (tl l) <> [].
+Proof. destruct l as [|a [|b l]]; cbn [length]; try lia. intros _. change (removelast (a :: b :: l)) with (a :: removelast (b :: l)). cbn [tl combine]. discriminate. Qed.
+Lemma tiles1_ends (p : R * R) n : (1 <= n)%nat ->
+  (exists t, In t (tiles1 RN p n) /\ fst t = fst p) /\ (exists t, In t (tiles1 RN p n) /\ snd t = snd p).
+Proof.
+  intros Hn. unfold tiles1. cbv zeta. cbn [T RN].
+  pose proof (linspace_first (fst p) (snd p) n Hn) as Hf. pose proof (linspace_last (fst p) (snd p) n Hn) as Hl.
+  pose proof (linspace_length (fst p) (snd p) (S n)) as Hlen.
+  destruct (linspace RN (fst p) (snd p) (S n)) as [|a [|b r]]; cbn [length] in Hlen; try lia.
+  split.
+  - exists (a, b). split; [change (removelast (a :: b :: r)) with (a :: removelast (b :: r)); cbn [tl combine In]; left; reflexivity | cbn [fst nth] in *; exact Hf].
+  - destruct (last_tile r a b) as (u & Hu). exists (u, last (a :: b :: r) 0). split; [exact Hu | cbn [snd]; exact Hl].
+Qed.
+(* every corner of the box is a corner of one of the tiles *)
+Lemma corner_in_some_tile box n c : (1 <= n)%nat -> In c (corners RN box) ->
+  exists tb, In tb (subintervalise RN box n) /\ In c (corners RN tb).
+Proof.
+  intros Hn Hc. unfold corners in Hc. apply in_cartesian in Hc. revert c Hc.
+  induction box as [|p box IH]; intros c Hc; cbn [map] in Hc; inversion Hc as [|x l xs ls Hx Hxs]; subst.
+  - exists []. split; left; reflexivity.
+  - destruct (IH xs Hxs) as (tb & Htb & Hct).
+    destruct (tiles1_ends p n Hn) as ((t1 & Ht1 & E1) & (t2 & Ht2 & E2)).
+    assert (exists t, In t (tiles1 RN p n) /\ In x [fst t; snd t]) as (t & Ht & Hxt).
+    { destruct Hx as [<-|[<-|[]]]; [exists t1 | exists t2]; (split; [assumption|]); cbn; auto. }
+    exists (t :: tb). split.
+    + unfold subintervalise in *. cbn [map cartesian]. apply in_flat_map. exists t. split; [exact Ht|apply in_map; exact Htb].
+    + unfold corners in *. cbn [map cartesian]. apply in_flat_map. exists x. split; [exact Hxt|apply in_map; exact Hct].
+Qed.
+Lemma sequence_pick {A B} (f : A -> res B) (tl : list A) (rs : list B) (t : A) :
+  sequence (map f tl) = Ok rs -> In t tl -> exists rt, In rt rs /\ f t = Ok rt.
+Proof.
+  intros Es Hin. pose proof (sequence_ok _ _ Es) as F. clear Es. revert rs F.
+  induction tl as [|t0 tl IH]; intros rs F; [destruct Hin|].
+  cbn [map] in F. inversion F as [|? a ? rs' Ha F']; subst. destruct Hin as [->|Hin].
+  - exists a. split; [left; reflexivity|exact Ha].
+  - destruct (IH Hin rs' F') as (rt & H1 & H2). exists rt. split; [right; exact H1|exact H2].
+Qed.
+Lemma sequence_pick_rev {A B} (f : A -> res B) (tl : list A) (rs : list B) (rt : B) :
+  sequence (map f tl) = Ok rs -> In rt rs -> exists t, In t tl /\ f t = Ok rt.
+Proof.
+  intros Es Hin. pose proof (sequence_ok _ _ Es) as F. clear Es. revert rs F Hin.
+  induction tl as [|t0 tl IH]; intros rs F Hin; cbn [map] in F; inversion F as [|? a ? rs' Ha F']; subst; [destruct Hin|].
+  destruct Hin as [->|Hin].
+  - exists t0. split; [left; reflexivity|exact Ha].
+  - destruct (IH rs' F' Hin) as (t & H1 & H2). exists t. split; [right; exact H1|exact H2].
+Qed.
+(* (a) it contains the plain vertex result *)
+Theorem sub_endpoints_contains_endpoints e box n r r0 : (1 <= n)%nat ->
+  sub_endpoints RN fexp fpow e box n = Ok r -> endpoints RN fexp fpow e box = Ok r0 -> sub_pr r0 r.
+Proof.
+  intros Hn. unfold sub_endpoints. destruct (sequence _) as [rs| |] eqn:Es; cbn [rbind]; try discriminate. intros Er E0.
+  assert (Hall : forall c, In c (corners RN box) -> fst r <= evalR e c <= snd r).
+  { intros c Hc. destruct (corner_in_some_tile box n c Hn Hc) as (tb & Htb & Hct).
+    destruct (sequence_pick _ _ _ tb Es Htb) as (rt & Hrt & Et).
+    pose proof (endpoints_is_corner_minmax e tb rt Et c Hct) as Hv.
+    destruct (reconstitute_contains rs r rt Er Hrt) as [S1 S2]. cbn [T RN] in *. lra. }
+  revert E0. unfold endpoints, mkI. cbn [nleb RN T]. destruct (Rleb _ _); intros E0; inversion E0; subst. unfold sub_pr. cbn [fst snd].
+  assert (Hne : map (evalR e) (corners RN box) <> []).
+  { intro E1. apply map_eq_nil in E1. revert E1. apply cartesian_nonempty. apply Forall_forall. intros l Hl.
+    apply in_map_iff in Hl. destruct Hl as (p & <- & _). discriminate. }
+  pose proof (minl_in _ Hne) as H1. pose proof (maxl_in _ Hne) as H2.
+  apply in_map_iff in H1. destruct H1 as (c1 & E1 & Hc1). apply in_map_iff in H2. destruct H2 as (c2 & E2 & Hc2).
+  pose proof (Hall c1 Hc1) as A1. pose proof (Hall c2 Hc2) as A2. rewrite E1 in A1. rewrite E2 in A2.
+  split; [exact (proj1 A1) | exact (proj2 A2)].
+Qed.
+(* (b) both of its ends are values of the function at points of the box: it lies inside the true range *)
+Theorem sub_endpoints_inside_range e box n r : (1 <= n)%nat -> wf_box box ->
+  (forall tb, In tb (subintervalise RN box n) -> wf_box tb /\ Forall2 sub_pr tb box) ->
+  sub_endpoints RN fexp fpow e box n = Ok r ->
+  (exists c, in_box c box /\ evalR e c = fst r) /\ (exists c, in_box c box /\ evalR e c = snd r).
+Proof.
+  intros Hn W Wt. unfold sub_endpoints. destruct (sequence _) as [rs| |] eqn:Es; cbn [rbind]; try discriminate.
+  unfold reconstitute, mkI. cbn [nleb RN T]. destruct (Rleb _ _); intros E; inversion E; subst. cbn [fst snd].
+  assert (Hne : rs <> []).
+  { intro E0. subst rs. pose proof (sequence_ok _ _ Es) as F. inversion F as [E1|]. symmetry in E1. apply map_eq_nil in E1.
+    revert E1. apply cartesian_nonempty. apply Forall_forall. intros l Hl. apply in_map_iff in Hl. destruct Hl as (p & <- & _).
+    unfold tiles1. cbv zeta. apply combine_consec_nonempty. rewrite linspace_length. lia. }
+  assert (Hin_box : forall tb c, In tb (subintervalise RN box n) -> in_box c tb -> in_box c box).
+  { intros tb c Htb Hc. destruct (Wt tb Htb) as (_ & Hs). clear -Hs Hc. revert c Hc.
+    induction Hs as [|t p tb box Htp Hs IH]; intros c Hc; inversion Hc; subst; constructor.
+    - unfold in_pr, sub_pr in *. lra.
+    - apply IH. assumption. }
+  split.
+  - assert (Hm : map fst rs <> []) by (intro E0; apply map_eq_nil in E0; contradiction).
+    pose proof (minl_in _ Hm) as H1. apply in_map_iff in H1. destruct H1 as (rt & E1 & Hrt).
+    destruct (sequence_pick_rev _ _ _ rt Es Hrt) as (tb & Htb & Et).
+    destruct (endpoints_inside_range e tb rt (proj1 (Wt tb Htb)) Et) as ((c & Hc & Ec) & _).
+    exists c. split; [apply (Hin_box tb); assumption | rewrite Ec; exact E1].
+  - assert (Hm : map snd rs <> []) by (intro E0; apply map_eq_nil in E0; contradiction).
+    pose proof (maxl_in _ Hm) as H1. apply in_map_iff in H1. destruct H1 as (rt & E1 & Hrt).
+    destruct (sequence_pick_rev _ _ _ rt Es Hrt) as (tb & Htb & Et).
+    destruct (endpoints_inside_range e tb rt (proj1 (Wt tb Htb)) Et) as (_ & (c & Hc & Ec)).
+    exists c. split; [apply (Hin_box tb); assumption | rewrite Ec; exact E1].
+Qed.
 End S.
